@@ -93,18 +93,18 @@ func (fr *frame) idealTrunc(x *smt.Term) *smt.Term {
 		}
 		return c.Real(new(big.Rat).SetInt(f))
 	}
-	k := c.Var(fr.i.eng.FreshName("k"), smt.SReal)
+	// k is an INTEGER (mixed Int/Real query): comparisons such as TruncateInt().IsZero() keep their meaning
+	ki := c.Var(fr.i.eng.FreshName("k"), smt.SInt)
+	k := c.ToReal(ki)
 	one := c.Real(big.NewRat(1, 1))
 	zero := c.Real(new(big.Rat))
 	pos := c.And(c.Le(k, x), c.Lt(x, c.Add(k, one)))
 	neg := c.And(c.Lt(c.Sub(k, one), x), c.Le(x, k))
 	if x.Lo != nil && x.Lo.Sign() >= 0 {
 		fr.i.eng.addPC(pos)
+		ki.Lo = new(big.Rat)
 	} else {
 		fr.i.eng.addPC(c.Ite(c.Ge(x, zero), pos, neg))
-	}
-	if x.Lo != nil && x.Lo.Sign() >= 0 {
-		k.Lo = new(big.Rat)
 	}
 	return k
 }
